@@ -252,6 +252,11 @@ class Sim:
                 t.block_obj.waiters.remove(t)
             except ValueError:
                 pass
+        elif t.block_kind == "putwait" and t.block_obj is not None:
+            try:
+                t.block_obj.put_waiters.remove(t)
+            except ValueError:
+                pass
         t.state = RUNNABLE
         t.deadline = None
         t.block_kind = None
